@@ -253,6 +253,13 @@ def ident_ref(ex, args, callee): return args[0]
 def unit(ex, args, callee): return Tup([])
 
 
+def m_smart_deref(ex, args, callee):
+    """<Arc<T>/Box<T> as Deref>::deref(&ptr) -> &T   (smart pointers are modelled as a Ref to the pointee)"""
+    a = args[0]
+    if isinstance(a, Ref) and isinstance(a.cell.v, Ref): return a.cell.v
+    return a
+
+
 # ------------------------------------------------------------------ maps / sets
 def map_lookup(ex, mp, k):
     """returns Cell or None; a symbolic key forks over 'equals key i' / 'absent'"""
@@ -338,6 +345,29 @@ def m_ok_or(ex, args, callee):
 def m_opt_map(ex, args, callee):
     o = args[0]
     return ex.some(ex.call_closure(args[1], [ex.payload(o)])) if o.discr == 1 else ex.none()
+
+
+def m_map_or(ex, args, callee):
+    o = args[0]
+    good = 0 if o.ty == 'Result' else 1
+    return ex.call_closure(args[2], [ex.payload(o)]) if o.discr == good else args[1]
+
+
+def m_map_or_else(ex, args, callee):
+    o = args[0]
+    good = 0 if o.ty == 'Result' else 1
+    if o.discr == good: return ex.call_closure(args[2], [ex.payload(o)])
+    return ex.call_closure(args[1], [ex.payload(o)] if o.ty == 'Result' else [])
+
+
+def m_opt_filter(ex, args, callee):
+    o = args[0]
+    if o.discr == 1 and ex.truth(ex.call_closure(args[1], [Ref(o.fields[1][0])])): return o
+    return ex.none()
+
+
+def m_opt_or(ex, args, callee):
+    return args[0] if args[0].discr == 1 else args[1]
 
 
 def m_opt_and_then(ex, args, callee):
@@ -540,6 +570,7 @@ BASE_MODELS = [
     (r'^Box::<\[.*\]>::new_uninit$', lambda ex, a, c: Ref(Cell(None))),
     (r'box_assume_init_into_vec_unsafe', lambda ex, a, c: dv(a[0])),
     (r'^Box::<.*>::new$', lambda ex, a, c: Ref(Cell(a[0]))),
+    (r'^Box::<.*>::pin$', lambda ex, a, c: Adt('Pin', 0, {None: [Cell(Ref(Cell(a[0])))]})),
     (r'^Vec::<.*>::new$|^Vec::<.*>::with_capacity$', lambda ex, a, c: PVec()), (r'Vec::<.*>::push$', m_vec_push), (r'Vec::<.*>::pop$', m_vec_pop),
     (r'Vec::<.*>::len$|slice::<impl \[.*\]>::len$', lambda ex, a, c: len(dv(a[0]).items)),
     (r'Vec::<.*>::is_empty$|slice::<impl \[.*\]>::is_empty$', lambda ex, a, c: len(dv(a[0]).items) == 0),
@@ -551,7 +582,8 @@ BASE_MODELS = [
     (r'Option::<.*>::is_none$', lambda ex, a, c: dv(a[0]).discr == 0),
     (r'Option::<.*>::is_some$', lambda ex, a, c: dv(a[0]).discr == 1), (r'Option::<.*>::ok_or_else::', m_ok_or_else),
     (r'Option::<.*>::ok_or::', m_ok_or),
-    (r'Option::<.*>::map::', m_opt_map), (r'Option::<.*>::and_then::', m_opt_and_then), (r'Option::<.*>::or_else::', m_opt_or_else),
+    (r'Option::<.*>::map::', m_opt_map), (r'(Option|Result)::<.*>::map_or::', m_map_or), (r'(Option|Result)::<.*>::map_or_else::', m_map_or_else),
+    (r'Option::<.*>::filter::', m_opt_filter), (r'Option::<.*>::or$', m_opt_or), (r'Option::<.*>::and_then::', m_opt_and_then), (r'Option::<.*>::or_else::', m_opt_or_else),
     (r'(Option|Result)::<.*>::unwrap_or$', m_unwrap_or), (r'(Option|Result)::<.*>::unwrap_or_else::', m_unwrap_or_else),
     (r'(Option|Result)::<.*>::(unwrap|expect)$', m_expect),
     (r'Option::<.*>::take$', m_opt_take), (r'(Option|Result)::<.*>::as_ref$|Option::<.*>::as_mut$', m_as_ref),
@@ -572,7 +604,7 @@ BASE_MODELS = [
     (r'^must_use::', ident),
     (r'panic_fmt|^panic$|panicking::panic|^core::panicking|^std::rt::begin_panic|unwrap_failed|expect_failed', m_panic),
     (r' as Into<.*>>::into$', None),      # placeholder replaced below (identity only for T: Into<T>)
-    (r'^Arc::<.*>::clone$|Arc<.*> as Clone>::clone$', ident_ref), (r'Arc<.*> as Deref>::deref$|Box<.*> as Deref>::deref$', ident_ref),
+    (r'^Arc::<.*>::clone$|Arc<.*> as Clone>::clone$', ident_ref), (r'Arc<.*> as Deref>::deref$|Box<.*> as Deref>::deref$|Box<.*> as DerefMut>::deref_mut$', m_smart_deref),
     (r'^Arc::<.*>::new$', lambda ex, a, c: Ref(Cell(a[0]))),
     (r'^std::mem::drop::|^drop::', unit),
     (r' as FnOnce<.*>>::call_once$| as FnMut<.*>>::call_mut$| as Fn<.*>>::call$', m_call_once),
